@@ -435,18 +435,22 @@ Definition real_used (orig_used : devres) (v : ledger) : list nat :=
    Device CR carries topology information (and the request is not multi-GPU shared), otherwise
    defaultAllocateDevices. *)
 Definition desired_count (count : Z) : nat := if count =? 0 then 1%nat else Z.to_nat count.
-Definition alloc_type (scored : bool) (ls : list ledger) (infos : list devinfo) (t : nat)
-           (per : res) (count : Z) (shared : bool) : option (list alloc) :=
-  let v := filter_view (ledger_of ls t) (minors_of infos t) in
+(* [l] is the ledger the allocator looks at (only its total and free matter), [orig_used] the
+   node's real deviceUsed (for getRealUsed) *)
+Definition alloc_core (scored : bool) (infos : list devinfo) (t : nat) (orig_used : devres)
+           (l : ledger) (per : res) (count : Z) (shared : bool) : option (list alloc) :=
+  let v := filter_view l (minors_of infos t) in
   let desired := desired_count count in
   if Nat.eqb t 0 && gpu_topo_ok infos && negb (shared && (1 <? count)) then
-    let c := mkCtx desired shared scored per v (build_total infos 0)
-                   (real_used (used (ledger_of ls t)) v) in
+    let c := mkCtx desired shared scored per v (build_total infos 0) (real_used orig_used v) in
     match root_alloc c (root_minors infos) (numa_scopes infos) with
     | Some r => Some (map (fun m => (m, per)) (sr_minors r))
     | None => None
     end
   else default_allocate t scored v per desired desired.
+Definition alloc_type (scored : bool) (ls : list ledger) (infos : list devinfo) (t : nat)
+           (per : res) (count : Z) (shared : bool) : option (list alloc) :=
+  alloc_core scored infos t (used (ledger_of ls t)) (ledger_of ls t) per count shared.
 
 (* ---------- Filter during a preemption dry-run: the victims' holdings count as free
    (calcFreeWithPreemptible without required resources, nodeDevice.filter on that free) *)
@@ -458,20 +462,6 @@ Definition calc_free (l : ledger) (pre : devres) : devres :=
                   | None => None end) 0 pre in
   if dis_empty merged then free l
   else dzip (fun a b => match a with Some _ => a | None => b end) merged (free l).
-Definition filter_view_on (l : ledger) (fr : devres) (minors : list nat) : ledger :=
-  if dis_zero fr || match minors with [] => true | _ => false end then empty_ledger
-  else
-    let keep m := memn m minors in
-    let tot := dmapi (fun m f => match f with
-                                 | Some _ => if keep m then Some (ores (dget (total l) m)) else None
-                                 | None => None end) 0 fr in
-    let usd := dmapi (fun m f => match f with
-                                 | Some f' => if keep m
-                                              then let u := rsubnn (ores (dget (total l) m)) f' in
-                                                   if ris_zero u then None else Some u
-                                              else None
-                                 | None => None end) 0 fr in
-    reset_free (mkLedger tot [] usd []).
 (* appendAllocated over the victims' entries of the allocate set (RemovePod) *)
 Definition merge_res (a b : option res) : option res :=
   match a, b with
@@ -482,18 +472,13 @@ Definition preempt_of (l : ledger) (victims : list Z) : devres :=
   fold_left (fun pre v => match lookup_aset v (aset l) with
                           | Some d => if dis_empty d then pre else dzip merge_res pre d
                           | None => pre end) victims [].
+(* the ledger as the dry-run sees it: the victims' holdings count as free *)
+Definition preempt_ledger (l : ledger) (victims : list Z) : ledger :=
+  mkLedger (total l) (calc_free l (preempt_of l victims)) [] [].
 Definition alloc_type_on (ls : list ledger) (infos : list devinfo) (t : nat)
-           (per : res) (count : Z) (shared : bool) (pre : devres) : option (list alloc) :=
+           (per : res) (count : Z) (shared : bool) (victims : list Z) : option (list alloc) :=
   let l := ledger_of ls t in
-  let v := filter_view_on l (calc_free l pre) (minors_of infos t) in
-  let desired := desired_count count in
-  if Nat.eqb t 0 && gpu_topo_ok infos && negb (shared && (1 <? count)) then
-    let c := mkCtx desired shared false per v (build_total infos 0) (real_used (used l) v) in
-    match root_alloc c (root_minors infos) (numa_scopes infos) with
-    | Some r => Some (map (fun m => (m, per)) (sr_minors r))
-    | None => None
-    end
-  else default_allocate t false v per desired desired.
+  alloc_core false infos t (used l) (preempt_ledger l victims) per count shared.
 
 Inductive alloc_result :=
 | ASkip | AFail (code : Z) | ADone (da : dallocs).
@@ -530,8 +515,7 @@ Definition preempt_verdict (ls : list ledger) (infos : list devinfo) (rq : rawre
        then c_unresolvable
   else if existsb (fun t => match treq_of rq t with
                             | TReq per count sh =>
-                                match alloc_type_on ls infos t per count sh
-                                        (preempt_of (ledger_of ls t) victims) with
+                                match alloc_type_on ls infos t per count sh victims with
                                 | None => true | Some _ => false end
                             | _ => false end) type_ids
        then c_unsched
